@@ -686,6 +686,12 @@ def pv_bool(x=False):
 
 
 def pv_isinstance(obj, cls):
+    # the injected conversion functions stand for the builtin types they shadow
+    sub = {pv_int: _builtin_int, pv_float: _builtin_float, pv_bool: _builtin_bool}
+    if isinstance(cls, tuple):
+        cls = tuple(sub.get(x, x) for x in cls)
+    else:
+        cls = sub.get(cls, cls)
     if isinstance(obj, SInt):
         if cls is int or (isinstance(cls, tuple) and int in cls):
             return True
